@@ -22,6 +22,15 @@ CHECKS = {
     "C19": dict(engine="dsched", technique="property-based testing: real signals injected at generated scheduling points (incl. inside read_lock/read_unlock/synchronize_rcu and interrupted FUTEX_WAIT) of generated programs; read-side-state restoration oracle plus C01 oracles on handler sections",
                 text="Signals raised on the interrupted thread before any of its memory accesses, nested up to 3; the handler's lock/reads/unlock must restore nesting and (inside a section) the whole reader word, and handler and interrupted sections keep the grace-period guarantee. Exploration over interruption points and schedules.",
                 ref="DESIGN.md §6 C19"),
+    "C03": dict(engine="dsched", technique="property-based testing: generated call_rcu/reader/helper-management programs + schedules + futex faults on a controlled-concurrency engine; exactly-once counters, rcu_head identity, grace-period interval oracle, shadow heap, passive-drain termination oracle",
+                text="Generated programs over default, per-thread and per-CPU helpers (RT and futex-woken), chained callbacks and helper destruction with queued callbacks; every callback must run exactly once, after all sections open at its call_rcu(), and eventually without further API calls. Exploration over schedules and helper layouts.",
+                ref="DESIGN.md §6 C03"),
+    "C04": dict(engine="dsched", technique="property-based testing: generated programs weighted to concurrent rcu_barrier() callers, several helpers and helper creation/destruction, futex faults; set-inclusion oracle (callbacks whose call_rcu returned before barrier entry have finished at barrier return) and termination oracle",
+                text="The barrier oracle compares the set of callbacks queued before each rcu_barrier() call with the set finished at its return, on the real helper threads under generated schedules; termination by deadlock/no-progress/10x budget. Exploration.",
+                ref="DESIGN.md §6 C04"),
+    "C14": dict(engine="dsched", technique="property-based testing: generated start_poll/poll/poll-until-true programs with readers and the call_rcu helper under generated schedules; interval oracle at the first true result, stability and eventual-completion oracles",
+                text="Handles taken at generated points of in-flight grace periods; first true result checked against sections open at start_poll; true is stable; poll loops terminate. Exploration.",
+                ref="DESIGN.md §6 C14"),
 }
 NOT_YET = "check not built yet in this session (planned: see DESIGN.md §6)"
 
